@@ -743,8 +743,25 @@ func rpcStepTag(c *rpcConfCase, i int, last *uint32) string {
 		return "txout-err/" + o
 	case v.TxoKind == 1:
 		return "range-scan/" + o
+	}
+	bh, okh := v.Hashes[uint32(v.Height)]
+	if !okh {
+		return "txout-tip-hash-missing/" + o
+	}
+	if bh != v.Best {
+		return "txout-out-of-sync/" + o
+	}
+	first := uint32(v.Height)
+	if v.Conf >= 2 {
+		first = uint32(v.Height) + 1 - v.Conf
+	}
+	switch {
 	case v.Conf == 0:
 		return "txout-conf0/" + o
+	case v.Conf >= 1 && first > c.Start+c.Limit && o == "err":
+		return "txout-first-seen-after-deadline/" + o
+	case v.Conf >= 1 && first > n && o == "silent":
+		return "txout-first-seen-above-notified/" + o
 	case v.Conf == 1:
 		return "txout-conf1/" + o
 	}
@@ -1513,9 +1530,25 @@ func runC20(args []string) error {
 				continue
 			}
 			for _, a := range s.Answers {
-				t := "hist-list"
+				t := "no-match"
+				for _, e := range a.Hist {
+					if e[0] == 3 {
+						switch {
+						case e[1] <= 0:
+							t = "match-unconfirmed"
+						case !s.HdrNil && e[1] > int64(s.Hdr):
+							t = "match-above-header"
+						default:
+							t = "match"
+						}
+						break
+					}
+				}
 				if a.HistErr {
 					t = "hist-err"
+				}
+				if a.RawErr {
+					t += "+raw-err"
 				}
 				stepTags["electrum-answer:"+t]++
 			}
